@@ -318,6 +318,98 @@ func checkC09(c *Check) {
 	c.Share("C10", []string{"R1", "R2", "R3"}, 6)
 
 	// ---- R5 who may set a matcher
+	// ---- R8 a leaf is handed out as matched only through its own matcher
+	c.Rule("R8", "E1 guard-cut", "every tree function that returns (Leaf, …, true) returns a leaf whose own matcher (a Leaf method taking the request's http.Header) returned true on that path, or passes on the (leaf, ok) pair of another such function: no fallback hands out a leaf that was not asked", 3)
+	if m := p.Meth("route", "baseTree", "Match"); m != nil {
+		leafN := p.Named("route", "Leaf")
+		if leafN == nil {
+			c.Anchor("route.Leaf")
+			return
+		}
+		isLeafT := func(t types.Type) bool { return types.Identical(t, leafN) }
+		returnsLeafOK := func(sig *types.Signature) bool {
+			r := sig.Results()
+			return r.Len() >= 2 && isLeafT(r.At(0).Type()) && types.Identical(r.At(r.Len()-1).Type(), types.Typ[types.Bool])
+		}
+		lm := map[string]bool{}
+		for _, f := range leafMatchers(p) {
+			lm[f.Name()] = true
+		}
+		n := 0
+		for _, fn := range p.ReachFrom(m) {
+			if !returnsLeafOK(fn.Signature) || fn.Pkg != p.SSA["route"] {
+				continue
+			}
+			// cut: true edges of leaf-matcher calls and of the ok result of (Leaf, ok) calls
+			cut := EdgeSet{}
+			pass := map[ssa.Value]bool{}
+			allInstrs(fn, func(in ssa.Instruction) {
+				cl, ok := in.(*ssa.Call)
+				if !ok {
+					return
+				}
+				cm := &cl.Call
+				name := ""
+				if cm.IsInvoke() {
+					name = cm.Method.Name()
+				} else if sc := cm.StaticCallee(); sc != nil {
+					name = sc.Name()
+				}
+				asksLeaf := false
+				if types.Identical(cl.Type(), types.Typ[types.Bool]) {
+					hasHeader, onLeaf := false, false
+					for i, a := range callArgs(cm) {
+						if shortName(a.Type().String()) == "http.Header" || a.Type().String() == "net/http.Header" {
+							hasHeader = true
+						}
+						if i == 0 {
+							t := a.Type()
+							iface := leafN.Underlying().(*types.Interface)
+							onLeaf = isLeafT(t) || types.Implements(t, iface) || types.Implements(types.NewPointer(derefT(t)), iface)
+						}
+					}
+					asksLeaf = hasHeader && onLeaf
+				}
+				if (lm[name] || asksLeaf) && types.Identical(cl.Type(), types.Typ[types.Bool]) {
+					cut.addAll(edgesWhere(fn, cBool(vIs(cl)), true))
+					return
+				}
+				if sig, isSig := cm.Value.Type().Underlying().(*types.Signature); (isSig && returnsLeafOK(sig)) || (cm.IsInvoke() && returnsLeafOK(cm.Method.Type().(*types.Signature))) {
+					pass[cl] = true
+					nres := cl.Type().(*types.Tuple).Len()
+					cut.addAll(edgesWhere(fn, cBool(vExtract(nres-1, vIs(cl))), true))
+				}
+			})
+			allInstrs(fn, func(in ssa.Instruction) {
+				r, ok := in.(*ssa.Return)
+				if !ok || len(r.Results) < 2 {
+					return
+				}
+				lv, bv := r.Results[0], r.Results[len(r.Results)-1]
+				if vConstBool(false)(bv) || vNil(lv) {
+					return
+				}
+				n++
+				key := p.FuncKey(fn) + ":leaf-asked"
+				// (leaf, ok) of one call passed on together
+				if e0, ok := strip(lv).(*ssa.Extract); ok && pass[e0.Tuple] {
+					if e1, ok := strip(bv).(*ssa.Extract); ok && e1.Tuple == e0.Tuple {
+						c.OK(key, p.Pos(r.Pos()), "(leaf, ok) of "+callName(&e0.Tuple.(*ssa.Call).Call)+" passed on", 1)
+						return
+					}
+				}
+				if okG, path := guardedBy(fn, cut, isInstr(r)); okG && len(cut) > 0 {
+					c.OK(key, p.Pos(r.Pos()), "a matched leaf is returned only behind a true verdict of a leaf matcher (or an ok sub-match)", numInstrs(fn))
+				} else {
+					c.Bad(key, p.Pos(r.Pos()), "a leaf can be returned as matched without its matcher having been asked with the request's headers on that path: header constraints (and the segment test) are bypassed", path)
+				}
+			})
+		}
+		if n < 3 {
+			c.Anchor("tree functions returning (Leaf, bool)")
+		}
+	}
+
 	c.Rule("R5", "E5 who-may-call", "header matchers are written only through SetHeaderMatcher, which is called only from Route.Headers (and by its own propagation)", 1)
 	for fn, cs := range setCalls {
 		for _, s := range cs {
